@@ -5,6 +5,7 @@ import (
 
 	fpgo "github.com/TeaEntityLab/fpGo/v2"
 	"github.com/TeaEntityLab/fpGo/v2/zzverif/vsched"
+	"verifharness/lib"
 	"verifharness/lib/e1"
 )
 
@@ -297,6 +298,60 @@ func twinScenario(ctor string, bound int) *vsched.Scenario {
 	}
 }
 
+// payloadScenario: a message is opaque to the mailbox. One sender sends the payload table (nil, typed nil
+// pointers, zero values, an error value ...) to an Actor[interface{}], then zero values to an Actor[int]
+// whose buffered mailbox is closed with the backlog still queued: each message is processed exactly once, in order.
+func payloadScenario(capacity int, bound int) *vsched.Scenario {
+	fam := "payload"
+	pay := lib.Payloads()
+	return &vsched.Scenario{
+		Name:  fmt.Sprintf("payload/cap%d", capacity),
+		Bound: bound,
+		Body: func() {
+			a := fpgo.ActorNewByOptionsGenerics(func(self *fpgo.ActorDef[interface{}], m interface{}) {
+				vsched.Event("got", lib.Show(m))
+			}, make(chan interface{}, capacity), nil)
+			for _, v := range pay {
+				a.Send(v)
+			}
+			ints := fpgo.ActorNewByOptionsGenerics(func(self *fpgo.ActorDef[int], m int) {
+				vsched.Event("got-int", m)
+			}, make(chan int, 4), nil)
+			for _, v := range []int{0, 0, 7, 0} {
+				ints.Send(v)
+			}
+			ints.Close() // the backlog accepted before Close is still processed
+			a.Close()
+		},
+		Check: func(r *vsched.Result) []vsched.Failure {
+			fs := e1.Basic("C12", fam, r, nil)
+			if len(fs) > 0 {
+				return fs
+			}
+			var got, want []string
+			var gotInts []int
+			for _, e := range r.Events {
+				if e.Kind == "got" {
+					got = append(got, e.Args[0].(string))
+				}
+				if e.Kind == "got-int" {
+					gotInts = append(gotInts, e.Args[0].(int))
+				}
+			}
+			for _, v := range pay {
+				want = append(want, lib.Show(v))
+			}
+			if fmt.Sprint(got) != fmt.Sprint(want) {
+				fs = append(fs, e1.Fail("C12|"+fam+"|messages", "the actor processed %v, it was sent %v", got, want))
+			}
+			if fmt.Sprint(gotInts) != "[0 0 7 0]" {
+				fs = append(fs, e1.Fail("C12|"+fam+"|zero-messages", "an Actor[int] with a buffered mailbox, sent [0 0 7 0] and then closed, processed %v", gotInts))
+			}
+			return fs
+		},
+	}
+}
+
 func scenarios(tier string) []*vsched.Scenario {
 	b := 2
 	caps := []int{0, 1, 2}
@@ -326,7 +381,7 @@ func scenarios(tier string) []*vsched.Scenario {
 				handlerScenario(c, 5, 1, 2), actorScenario(c, 5, 1, 2))
 		}
 	}
-	out = append(out, spawnScenario(false, b), spawnScenario(true, b))
+	out = append(out, spawnScenario(false, b), spawnScenario(true, b), payloadScenario(0, 1), payloadScenario(3, 1))
 	for _, c := range []string{"Handler.New", "Handler.NewByCh", "Actor.New", "Actor.NewByOptions", "ActorNewGenerics", "ActorNewByOptionsGenerics"} {
 		out = append(out, twinScenario(c, b))
 	}
